@@ -119,6 +119,13 @@ Verdict run_case(Choices& c, CaseLog& log)
     bool abort_one = c.boolean(0.4);
     int abort_steps = int(c.int_in(1, 12));
     bool warm = c.boolean(0.3);
+    // event ids carried by the primaries (track ids are counted per event id;
+    // reseed() must make them start afresh whatever ran before)
+    int target_event = int(c.int_in(0, 3));
+    int prefix_event[4];
+    for (int& pe : prefix_event)
+        pe = int(c.int_in(0, 3));
+    log.mix(target_event);
     log.mix(uint64_t(target_id));
     log.mix(int(action_times));
     log.mix(int(status_checker));
@@ -134,7 +141,7 @@ Verdict run_case(Choices& c, CaseLog& log)
     log.d("warm_up", int(warm));
 
     auto const& evs = ref.spec.events;
-    auto target = make_primaries(*ref.w, evs[0], 0);
+    auto target = make_primaries(*ref.w, evs[0], target_event);
     RunResult r0 = run_event(*ref.w, *ref.stepper, target, target_id, 20000);
     if (r0.error.find("insufficient") != std::string::npos)
         return Verdict::rejected;
@@ -173,7 +180,9 @@ Verdict run_case(Choices& c, CaseLog& log)
     for (int i = 0; i < n_prefix; ++i)
     {
         auto const& ev = evs[(1 + i) % evs.size()];
-        auto prim = make_primaries(*w1, ev, 1 + i);
+        auto prim = make_primaries(*w1, ev, prefix_event[i]);
+        if (prefix_event[i] == target_event)
+            log.label("prefix-with-same-event-id");
         RunResult r = run_event(*w1, step1, prim, 1000 + 17 * i, 20000);
         if (!r.error.empty() || !r.completed)
         {
@@ -185,7 +194,7 @@ Verdict run_case(Choices& c, CaseLog& log)
     if (abort_one)
     {
         auto const& ev = evs[(1 + n_prefix) % evs.size()];
-        auto prim = make_primaries(*w1, ev, 5);
+        auto prim = make_primaries(*w1, ev, prefix_event[3]);
         RunResult r = run_event(*w1, step1, prim, 77777, abort_steps);
         if (!r.error.empty())
         {
@@ -231,10 +240,10 @@ Verdict run_case(Choices& c, CaseLog& log)
         }
     }
     // compare streams sorted by (track, step)
-    auto index = [](std::vector<StepRec> const& s) {
+    auto index = [target_event](std::vector<StepRec> const& s) {
         std::map<Key, StepRec const*> m;
         for (auto const& r : s)
-            if (r.event == 0)
+            if (r.event == target_event)
                 m[Key{r.track, r.step_count}] = &r;
         return m;
     };
